@@ -1,4 +1,13 @@
 // Probe payload types shared by the harnesses (cfg(kani) only).
+//
+// `Node` is the general graph node: two TRACED slots, one UNTRACED slot (an owning Cc field the
+// owner does not report: must be treated as an external reference), an id and a canary value.
+// Its Trace/Finalize/Drop callbacks keep the ghost life-cycle automaton of DESIGN section 3 and can
+// perform one driver-chosen action (resurrect, upgrade, collect, allocate, emulated panic).
+#![allow(static_mut_refs)]
+use core::cell::RefCell;
+
+use crate::verif::ghost::{self, g, Act, MAX_OBJ};
 use crate::{Cc, Context, Finalize, Trace};
 
 /// Leaf payload: no Cc inside, records nothing.
@@ -22,3 +31,215 @@ unsafe impl Trace for Big {
     fn trace(&self, _: &mut Context<'_>) {}
 }
 impl Finalize for Big {}
+
+pub(crate) const CANARY: u64 = 0x5a5a_0000_a5a5_0000;
+
+pub(crate) struct Node {
+    pub id: u8,
+    pub s0: RefCell<Option<Cc<Node>>>,
+    pub s1: RefCell<Option<Cc<Node>>>,
+    /// owning but NOT traced
+    pub hidden: RefCell<Option<Cc<Node>>>,
+    pub v: u64,
+}
+
+impl Node {
+    pub(crate) fn new(id: u8) -> Node {
+        Node { id, s0: RefCell::new(None), s1: RefCell::new(None), hidden: RefCell::new(None), v: CANARY + id as u64 }
+    }
+    pub(crate) fn intact(&self) -> bool {
+        self.v == CANARY + self.id as u64
+    }
+}
+
+/// Handles held by "the program" (roots), and places where finalizers store resurrected pointers.
+pub(crate) static mut HELD: [Option<Cc<Node>>; MAX_OBJ] = [None, None, None, None];
+pub(crate) static mut STASH: [Option<Cc<Node>>; MAX_OBJ] = [None, None, None, None];
+#[cfg(feature = "weak-ptrs")]
+pub(crate) static mut WEAKS: [Option<crate::weak::Weak<Node>>; MAX_OBJ] = [None, None, None, None];
+
+fn set_slot(cell: &RefCell<Option<Cc<Node>>>, v: Option<Cc<Node>>) -> Option<Cc<Node>> {
+    match cell.try_borrow_mut() {
+        Ok(mut b) => core::mem::replace(&mut *b, v),
+        Err(_) => {
+            kani::assume(false);
+            None
+        }
+    }
+}
+pub(crate) fn put(cell: &RefCell<Option<Cc<Node>>>, v: Option<Cc<Node>>) {
+    let old = set_slot(cell, v);
+    drop(old);
+}
+pub(crate) fn peek_id(cell: &RefCell<Option<Cc<Node>>>) -> Option<u8> {
+    match cell.try_borrow() {
+        Ok(b) => match &*b {
+            Some(c) => Some(crate::cc::verif_proofs::peek_node(c).id),
+            None => None,
+        },
+        Err(_) => {
+            kani::assume(false);
+            None
+        }
+    }
+}
+
+fn do_action(this: &Node, act: Act, target: u8) {
+    let id = this.id as usize;
+    match act {
+        Act::Nothing | Act::Fault => {}
+        Act::ResurrectSelf => unsafe {
+            // a new Cc to `this`, made by the real Cc::clone from the raw box address
+            if let Some(c) = crate::cc::verif_proofs::clone_from_registry(id) {
+                STASH[id] = Some(c);
+            }
+        },
+        Act::ResurrectNeighbour => unsafe {
+            // clone whatever traced slot 0 points to into the stash
+            let c = match this.s0.try_borrow() {
+                Ok(b) => b.as_ref().map(|c| c.clone()),
+                Err(_) => None,
+            };
+            if let Some(c) = c {
+                STASH[id] = Some(c);
+            }
+        },
+        Act::UpgradeStore => {
+            #[cfg(feature = "weak-ptrs")]
+            unsafe {
+                if let Some(w) = &WEAKS[target as usize] {
+                    let up = w.upgrade();
+                    g().upgrade_result[id] = if up.is_some() { 2 } else { 1 };
+                    if let Some(c) = up {
+                        STASH[id] = Some(c);
+                    }
+                }
+            }
+        }
+        Act::UpgradeProbe => {
+            #[cfg(feature = "weak-ptrs")]
+            unsafe {
+                if let Some(w) = &WEAKS[target as usize] {
+                    let up = w.upgrade();
+                    g().upgrade_result[id] = if up.is_some() { 2 } else { 1 };
+                    if let Some(c) = &up {
+                        // C08: an upgrade that succeeds gives access to a live, undropped value
+                        let n = crate::cc::verif_proofs::peek_node(c);
+                        if g().drop_calls[n.id as usize] != 0 || !n.intact() {
+                            g().upgrade_gave_dropped += 1;
+                        }
+                    }
+                    drop(up);
+                }
+            }
+        }
+        Act::Collect => {
+            g().collect_calls_in_cb += 1;
+            crate::collect_cycles();
+        }
+        Act::Alloc => {
+            let c = Cc::new(Leaf(7));
+            #[cfg(feature = "finalization")]
+            if crate::state::state(|s| s.is_finalizing()) && !c.already_finalized() {
+                g().new_in_finalizer_not_marked_finalized += 1;
+            }
+            drop(c);
+        }
+        Act::ClearSlot0 => {
+            put(&this.s0, None);
+        }
+    }
+}
+
+unsafe impl Trace for Node {
+    fn trace(&self, ctx: &mut Context<'_>) {
+        let gs = g();
+        let id = self.id as usize;
+        gs.n_trace += 1;
+        gs.trace_calls[id] += 1;
+        if !matches!(crate::state::is_tracing(), Ok(true)) {
+            gs.trace_not_tracing += 1;
+        }
+        if gs.drop_calls[id] != 0 {
+            gs.trace_after_drop += 1;
+        }
+        if gs.fault_kind == 1 && gs.n_trace == gs.fault_k {
+            // emulated `panic!` at the start of the k-th trace call (A-UNWIND)
+            ghost::start_panic();
+            return;
+        }
+        self.s0.trace(ctx);
+        self.s1.trace(ctx);
+        // `hidden` is deliberately not traced
+        if gs.fault_kind == 4 && gs.n_trace == gs.fault_k {
+            // emulated `panic!` at the end of the k-th trace call
+            ghost::start_panic();
+        }
+    }
+}
+
+impl Finalize for Node {
+    fn finalize(&self) {
+        let gs = g();
+        let id = self.id as usize;
+        gs.n_fin += 1;
+        gs.seq += 1;
+        gs.finalize_calls[id] += 1;
+        if gs.first_fin_seq[id] == 0 {
+            gs.first_fin_seq[id] = gs.seq;
+        }
+        if matches!(crate::state::is_tracing(), Ok(true)) {
+            gs.fin_while_tracing += 1;
+        }
+        #[cfg(not(feature = "finalization"))]
+        {
+            gs.fin_without_feature += 1;
+        }
+        if gs.drop_calls[id] != 0 {
+            gs.fin_after_drop += 1;
+        }
+        if !self.intact() {
+            gs.canary_broken += 1;
+        }
+        // C05: everything reachable through my slots is still undropped
+        for cell in [&self.s0, &self.s1, &self.hidden] {
+            if let Some(n) = peek_id(cell) {
+                if gs.drop_calls[n as usize] != 0 {
+                    gs.fin_saw_dropped_neighbour += 1;
+                }
+            }
+        }
+        if gs.fault_kind == 2 && gs.n_fin == gs.fault_k {
+            ghost::start_panic();
+            return;
+        }
+        do_action(self, gs.fin_act[id], gs.act_target[id]);
+    }
+}
+
+impl Drop for Node {
+    fn drop(&mut self) {
+        let gs = g();
+        let id = self.id as usize;
+        gs.n_drop += 1;
+        gs.seq += 1;
+        gs.drop_calls[id] += 1;
+        if gs.drop_calls[id] > 1 {
+            gs.double_drop += 1;
+        }
+        if gs.first_drop_seq[id] == 0 {
+            gs.first_drop_seq[id] = gs.seq;
+        }
+        if matches!(crate::state::is_tracing(), Ok(true)) {
+            gs.drop_while_tracing += 1;
+        }
+        if !self.intact() {
+            gs.canary_broken += 1;
+        }
+        if gs.fault_kind == 3 && gs.n_drop == gs.fault_k {
+            ghost::start_panic();
+            return;
+        }
+        do_action(self, gs.drop_act[id], gs.act_target[id]);
+    }
+}
